@@ -40,7 +40,15 @@ std::string scanner_special(vf::ByteSource& b) {
   static const char* tails[] = {"", "/", "/p", "?q", "#f", "\\", "/a b", "/%", "/\xc3\xa9", "/.", "/..", "//", "/?#"};
   // credentials: until the '@' is seen, "user:digits" looks exactly like "host:port" to a scanner
   static const char* creds[] = {"", "", "", "", "u@", "u:p@", "u:123456@", "u:80@", ":99999@", "1:2@", "u:65536@", "user:0000099999@", "a:b:c@", "u%40:p@", "u:@", "u:8a@", "4294967296:1@"};
-  std::string s = std::string(b.pick(sch)) + b.pick(sep) + b.pick(creds) + b.pick(hosts) + b.pick(ports) + b.pick(tails);
+  std::string host = b.pick(hosts);
+  if (b.chance(50)) {
+    // hosts made of digits and dots only, in every arrangement (empty labels, runs of dots,
+    // trailing dots): the scanner decides "IPv4 or domain" on exactly these
+    host.clear();
+    unsigned n = 1 + b.below(12);
+    for (unsigned i = 0; i < n; i++) host.push_back(b.chance(100) ? '.' : (char)('0' + b.below(10)));
+  }
+  std::string s = std::string(b.pick(sch)) + b.pick(sep) + b.pick(creds) + host + b.pick(ports) + b.pick(tails);
   return s;
 }
 
